@@ -157,3 +157,8 @@ def run(ctx, report):
         r_s.finding(f"{fn}:{name}", f"{fn} writes into {name}, an object created once at class / module level and shared by every call "
                     f"({e['kind']} {e.get('attr') or e.get('op') or ''}): a later call sees what an earlier one left there", where)
     report.assumptions += ["pycountry and re are history-independent (library model)"]
+    report.not_decided += [
+        "a design that keeps state on purpose (a hand-written cache with a correct insert / lookup protocol, a lazily initialised constant) is reported by the who-may-write rule, not verified to be unobservable - "
+        "only functools caches on effect-free module-level functions with scalar parameters and result are accepted as unobservable",
+        "stale-read tracking evaluates every registered algorithm on abstract structure-conforming inputs of its country; state reachable only through other inputs is covered by the write rules alone",
+    ]
